@@ -10,8 +10,10 @@ from pbmon.props.c01 import PROTOS, proto_class
 PROPERTY = "C02"
 NSHARDS = {"quick": 6, "thorough": 16}
 CLAUSES = {"C02.adjacent": 60, "C02.segregation": 60, "C02.nonadjacent": 60, "C02.independence": 200,
-           "C02.exact": 2000, "C02.xoprob": 100, "C02.selfing": 10}
-HOOKS_REQUIRED = ["mat_meiosis calls", "dense_meiosis calls", "constant uniform() interceptions", "interp_xoprob on a matrix that already carries genetic positions"]
+           "C02.exact": 2000, "C02.xoprob": 100, "C02.selfing": 10,
+           "C02.role.segregation": 1500, "C02.role.recombination": 800}
+HOOKS_REQUIRED = ["mat_meiosis calls", "dense_meiosis calls", "constant uniform() interceptions", "interp_xoprob on a matrix that already carries genetic positions",
+                  "crosses whose parents differ in inbred/heterozygous status by role"]
 RULE = ("layouts = (chromosome structure, crossover-probability vector or Haldane/Kosambi map, mating protocol) drawn from seeded "
         "classes; per layout >= 3e5 (quick) / 1e6 (thorough) logged meioses of fully heterozygous founders through the real protocols "
         "and dense_dh; exact two-sided binomial tests per interval / locus / marker pair / interval pair, Bonferroni family-wise "
@@ -454,12 +456,253 @@ def case_dense(ctx, c):
                   witness={"markers": m, "chromosomes": nchr, "p": p, "protocol": pname, "first": [kk, nn, pv], "confirm": [kk2, nn2, pv2]}, coords=[c, "dense"])
 
 
+# ---------------------------------------------------------------- parents whose inbred / heterozygous status differs by role
+# End-to-end (no hook): whatever the protocol does internally, a progeny chromosome copy is a chain of gametes through the
+# pedigree the protocol defines.  Every parental line carries its own allele codes (code 2t on copy 0; 2t+1 on copy 1 where the
+# line is heterozygous, 2t again where it is inbred), so the founder copy behind every progeny allele is visible exactly as far
+# as the parents' genotypes make it visible, and the frequency of every code at every marker and of "codes of adjacent markers
+# differ" follows from the pedigree and the stored crossover probabilities alone.
+ROLES = {"SelfCross": ["parent"], "TwoWayCross": ["female", "male"], "TwoWayDHCross": ["female", "male"],
+         "ThreeWayCross": ["recurrent", "female", "male"], "ThreeWayDHCross": ["recurrent", "female", "male"],
+         "FourWayCross": ["female 2", "male 2", "female 1", "male 1"], "FourWayDHCross": ["female 2", "male 2", "female 1", "male 1"]}
+ROLE_CONFIGS = [(name, nself, mask) for name, npar, _ in PROTOS for nself in (0, 1, 2) for mask in range(2 ** npar)]
+ROLE_N = {"quick": 24000, "thorough": 120000}
+ROLE_VARIANTS = {"quick": 42, "thorough": 2 * len(ROLE_CONFIGS)}
+
+
+def role_pedigree(name, x, nself):
+    """(individual, doubled haploid?) from the protocol definitions; x = line (local index) per cross-table column.
+    ("F", t) founder line, ("I", a, b) offspring of two independent individuals, ("S", a) offspring of ONE individual selfed."""
+    F = [("F", int(t)) for t in x]
+    if name == "SelfCross":
+        ind = ("S", F[0])
+    elif name.startswith("TwoWay"):
+        ind = ("I", F[0], F[1])
+    elif name.startswith("ThreeWay"):
+        ind = ("I", F[0], ("I", F[1], F[2]))          # recurrent x (female x male)
+    else:
+        ind = ("I", ("I", F[0], F[1]), ("I", F[2], F[3]))
+    for _ in range(nself):
+        ind = ("S", ind)
+    return ind, name.endswith("DHCross")
+
+
+_KERNELS = {}
+
+
+def _kernels(K):
+    """0/1 matrices over (two-locus diplotype, haplotype): the gamete keeps one copy at both loci / takes the loci from different copies."""
+    if K not in _KERNELS:
+        a1, a2, b1, b2 = [v.ravel() for v in numpy.indices((K, K, K, K))]
+        rows = numpy.arange(K ** 4)
+        same = numpy.zeros((K ** 4, K * K)); cross = numpy.zeros((K ** 4, K * K))
+        numpy.add.at(same, (rows, a1 * K + a2), 1.0); numpy.add.at(same, (rows, b1 * K + b2), 1.0)
+        numpy.add.at(cross, (rows, a1 * K + b2), 1.0); numpy.add.at(cross, (rows, b1 * K + a2), 1.0)
+        _KERNELS[K] = (same, cross)
+    return _KERNELS[K]
+
+
+def role_twolocus(ind, dh, K, r):
+    """Exact distribution over (founder copy behind locus j-1, founder copy behind locus j) of one chromosome copy of a progeny
+    (a copy picked at random), crossover probability r between the two loci, free assortment of the first one.  Founder copy of
+    line t, chromosome copy c is state 2t+c.  Works on distributions over two-locus diplotypes, so that the two gametes united by
+    a selfing come from the SAME (random) individual."""
+    same, cross = _kernels(K)
+    H = K * K
+
+    def dip(x):
+        if x[0] == "F":
+            D = numpy.zeros((H, H)); D[(2 * x[1]) * K + 2 * x[1], (2 * x[1] + 1) * K + 2 * x[1] + 1] = 1.0
+            return D
+        if x[0] == "I":
+            return numpy.outer(gam(dip(x[1])), gam(dip(x[2])))
+        w = dip(x[1]).ravel(); nz = numpy.flatnonzero(w)
+        g = 0.5 * (1.0 - r) * same[nz] + 0.5 * r * cross[nz]
+        return g.T @ (w[nz, None] * g)
+
+    def gam(D):
+        w = D.ravel(); nz = numpy.flatnonzero(w)
+        return w[nz] @ (0.5 * (1.0 - r) * same[nz] + 0.5 * r * cross[nz])
+    D = dip(ind)
+    P = gam(D) if dh else 0.5 * (D.sum(0) + D.sum(1))
+    return P.reshape(K, K)
+
+
+def gen_roles(g, c):
+    """Case c < len(ROLE_CONFIGS): one cross, (protocol, selfing depth, subset of roles inbred) enumerated exhaustively.  Later cases
+    ('variants'): two crosses in one table with independent random subsets, lines that are inbred except for a heterozygous segment
+    (or the reverse), and one line standing in two roles (back-cross like tables)."""
+    variant = c >= len(ROLE_CONFIGS)
+    nchr = int(g.integers(1, 4)); m = int(g.integers(max(3, nchr), 15))
+    chrgrp = pop.chrom_layout(g, m, nchr); st = pop.chrom_starts(chrgrp)
+    kind = ["constant", "random", "mixed", "above-half", "small"][int(g.integers(5))]
+    if kind == "constant":
+        xo = numpy.full(m, float(g.choice([0.01, 0.1, 0.25, 0.5])))
+    elif kind == "random":
+        xo = g.uniform(0, 0.5, m)
+    elif kind == "mixed":
+        xo = g.uniform(0, 0.5, m); xo[g.random(m) < 0.2] = 0.0; xo[g.random(m) < 0.15] = 0.5
+    elif kind == "above-half":
+        xo = g.uniform(0, 1.0, m); xo[g.random(m) < 0.15] = 1.0
+    else:
+        xo = g.uniform(0.001, 0.05, m)
+    xo[st] = 0.5
+    if not variant:
+        name, nself, mask = ROLE_CONFIGS[c]
+        rows = [(numpy.arange(len(ROLES[name])), mask)]
+    else:
+        name = PROTOS[int(g.integers(len(PROTOS)))][0]; nself = int(g.integers(0, 3))
+        npar = len(ROLES[name])
+        rows = [(numpy.arange(npar) + 4 * i, int(g.integers(2 ** npar))) for i in range(2)]
+    ntaxa = 4 * len(rows) + int(g.integers(0, 3))
+    perm = g.permutation(ntaxa)                # which lines of the population stand in the table
+    het = numpy.zeros((ntaxa, m), dtype=bool)
+    het[perm[4 * len(rows):]] = g.random((ntaxa - 4 * len(rows), m)) < 0.5         # bystanders that are in no cross
+    xrows = []; desc = []
+    for x, mask in rows:
+        x = perm[x].copy()
+        shared = None
+        if variant and len(x) > 1 and g.random() < 0.3:
+            a, b = g.choice(len(x), 2, replace=False); x[b] = x[a]; shared = (int(min(a, b)), int(max(a, b)))
+        words = {}
+        for i, t in enumerate(x):
+            if shared is not None and i == shared[1]:
+                continue
+            inbred = bool(mask >> i & 1)
+            het[t] = not inbred
+            w = "inbred" if inbred else "heterozygous"
+            if variant and m >= 4 and g.random() < 0.3:     # residual heterozygosity / a fixed segment
+                lo = int(g.integers(0, m - 1)); hi = int(g.integers(lo + 1, m))
+                het[t, lo:hi] = inbred
+                w = "inbred except a heterozygous segment" if inbred else "heterozygous except a fixed segment"
+            words.setdefault(w, []).append(ROLES[name][i] + ("" if shared is None or i != shared[0] else " (= %s)" % ROLES[name][shared[1]]))
+        xrows.append(x)
+        desc.append("; ".join("%s: %s" % (w, ",".join(words[w])) for w in sorted(words)))
+    return dict(m=m, nchr=nchr, chrgrp=chrgrp, start=st, kind=kind, xo=xo, proto=name, nself=nself, ntaxa=ntaxa, het=het,
+                xc=numpy.array(xrows, dtype="int64"), desc=desc, variant=variant)
+
+
+def role_ntests(R):
+    return sum(int(sum(1 + R["het"][t].astype(int) for t in set(x.tolist())).sum()) + R["m"] - 1 for x in R["xc"])
+
+
+def role_expect(R, i):
+    """[(clause, test id, selector of the counted event, p)] for cross row i, from the pedigree and the stored probabilities."""
+    x = R["xc"][i]; m = R["m"]; xo = R["xo"]
+    u = sorted(set(x.tolist()))
+    K = 2 * len(u)
+    ind, dh = role_pedigree(R["proto"], [u.index(t) for t in x.tolist()], R["nself"])
+    code = numpy.array([[2 * t + (1 if (cp and R["het"][t, j]) else 0) for t in u for cp in (0, 1)] for j in range(m)])   # (m, K)
+    cache = {}
+    out = []
+    marg = None
+    for j in range(1, m):
+        r = float(xo[j])
+        if r not in cache:
+            cache[r] = role_twolocus(ind, dh, K, r)
+        P = cache[r]
+        if marg is None:
+            marg = P.sum(1)
+        p = float(P[code[j - 1][:, None] != code[j][None, :]].sum())
+        out.append(("C02.role.recombination", ("rowdiff", i, j), p))
+    if marg is None:
+        marg = role_twolocus(ind, dh, K, 0.5).sum(1)
+    for j in range(m):
+        for cd in sorted(set(code[j].tolist())):
+            out.append(("C02.role.segregation", ("code", i, j, int(cd)), float(min(1.0, marg[code[j] == cd].sum()))))
+    return out
+
+
+def role_collect(R, seed, n):
+    """One mate() call: n independent matings per cross row, one progeny each; per progeny one chromosome copy picked by the harness."""
+    from pybrops.popgen.gmat.DensePhasedGenotypeMatrix import DensePhasedGenotypeMatrix
+    m = R["m"]; nt = R["ntaxa"]
+    mat = numpy.zeros((2, nt, m), dtype="int8")
+    mat[0] = 2 * numpy.arange(nt)[:, None]; mat[1] = mat[0] + R["het"]
+    pg = DensePhasedGenotypeMatrix(mat, taxa=numpy.array(["l%d" % i for i in range(nt)], dtype=object), taxa_grp=numpy.zeros(nt, dtype="int64"),
+                                   vrnt_chrgrp=R["chrgrp"].copy(), vrnt_phypos=numpy.arange(1, m + 1, dtype="int64") * 100, vrnt_xoprob=R["xo"].copy())
+    pg.group_vrnt()
+    rng = numpy.random.Generator(numpy.random.PCG64(seed))
+    out = proto_class(R["proto"])(rng=rng).mate(pg, R["xc"].copy(), n, 1, nself=R["nself"])
+    pm = numpy.asarray(out.mat)
+    pick = numpy.random.Generator(numpy.random.PCG64([seed, 1])).integers(0, 2, pm.shape[1]).astype(bool)
+    obs = numpy.where(pick[:, None], pm[1], pm[0]).astype(numpy.int64)
+    res = {}
+    for i, x in enumerate(R["xc"]):
+        # the cross a progeny belongs to is read from its alleles (lines of different crosses are disjoint)
+        h = obs[numpy.isin(obs[:, 0] // 2, x)]
+        res[i] = h
+    return res, pm.shape[1]
+
+
+def role_counts(R, obs, expect):
+    for clause, tid, p in expect:
+        h = obs[tid[1]]
+        if tid[0] == "rowdiff":
+            k = int((h[:, tid[2] - 1] != h[:, tid[2]]).sum())
+        else:
+            k = int((h[:, tid[2]] == tid[3]).sum())
+        yield clause, tid, k, int(h.shape[0]), p
+
+
+def case_roles(ctx, c, level):
+    g = ctx.rng("roles", c)
+    R = gen_roles(g, c)
+    coords = [c, "roles"]
+    n = ROLE_N[ctx.tier]
+    ctx.case("roles:%s/nself=%d/%s" % (R["proto"], R["nself"], " | ".join(R["desc"])), R["chrgrp"], R["xo"], R["proto"], R["nself"], R["xc"], R["het"])
+    site = "%s.mate (progeny alleles, end to end)" % R["proto"]
+    expect = [e for i in range(len(R["xc"])) for e in role_expect(R, i)]
+    try:
+        obs, nprog = role_collect(R, int(g.integers(2 ** 62)), n)
+    except Exception as e:
+        ctx.raised(R["proto"] + ".mate (parents inbred by role)", e)
+        return
+    ctx.hook("crosses whose parents differ in inbred/heterozygous status by role", len(R["xc"]))
+    if c % 29 == 0:
+        ctx.sample({"roles": {"protocol": R["proto"], "nself": R["nself"], "xconfig": R["xc"].tolist(), "status": R["desc"], "markers": R["m"],
+                              "xoprob": R["kind"]}, "progeny": nprog})
+    ctx.sumnote("progeny of crosses with role-specific parent status", nprog)
+    ctx.sumnote("statistical tests", len(expect))
+    suspects = []
+    for clause, tid, k, nn, p in role_counts(R, obs, expect):
+        pv = ST.binom_pvalue(k, nn, p)
+        if pv < level:
+            suspects.append((clause, tid, k, nn, p, pv))
+        else:
+            ctx.ok(clause)
+    if suspects:
+        ctx.sumnote("first-stage rejections", len(suspects))
+        obs2, _ = role_collect(R, int(g.integers(2 ** 62)), 4 * n)
+        second = {tid: (k, nn, p) for _, tid, k, nn, p in role_counts(R, obs2, expect)}
+        seen = set()
+        for clause, tid, k, nn, p, pv in suspects:
+            k2, n2, p2 = second[tid]
+            pv2 = ST.binom_pvalue(k2, n2, p2)
+            icls = "parents " + R["desc"][tid[1]]
+            bad = pv2 < ST.ALPHA_CONFIRM
+            if bad and (clause, icls) in seen:
+                continue            # one report per clause and parent class; the others are the same finding
+            if bad:
+                seen.add((clause, icls))
+            ctx.check(clause, not bad, site, "frequency == probability derived from the pedigree (confirmed rejection)", icls,
+                      what="%s %s, nself=%d, cross %s, test %s: first stage %d/%d vs p=%.6g (p-value %.3g), confirmation %d/%d (p-value %.3g)" % (
+                          clause, R["proto"], R["nself"], R["xc"][tid[1]].tolist(), tid, k, nn, p, pv, k2, n2, pv2),
+                      witness={"protocol": R["proto"], "nself": R["nself"], "xconfig": R["xc"], "heterozygous (line, marker)": R["het"].astype(int),
+                               "xoprob": R["xo"], "chrgrp": R["chrgrp"], "test": tid, "first": [k, nn, p, pv], "confirm": [k2, n2, pv2]}, coords=coords)
+
+
+def role_total(ctx):
+    return len(ROLE_CONFIGS) + ROLE_VARIANTS[ctx.tier]
+
+
 def plan(ctx):
     qn, tn = 12, 192
     ids = list(ctx.case_ids(qn, tn))
     total = qn if ctx.tier == "quick" else tn
     # family size over the WHOLE run (all shards), known before sampling: layouts are a pure function of the case number
     ntot = sum(ntests_of(gen_layout(ctx.rng("layout", c), c)) for c in range(total))
+    ntot += sum(role_ntests(gen_roles(ctx.rng("roles", c), c)) for c in range(role_total(ctx)))
     return ids, ST.ALPHA_FAMILY / max(1, ntot), ntot
 
 
@@ -475,6 +718,8 @@ def run_shard(ctx):
         case_xoprob(ctx, c)
     for c in ctx.case_ids(6, 64):
         case_dense(ctx, c)
+    for c in ctx.case_ids(len(ROLE_CONFIGS) + ROLE_VARIANTS["quick"], len(ROLE_CONFIGS) + ROLE_VARIANTS["thorough"]):
+        case_roles(ctx, c, level)
 
 
 def replay(ctx, coords):
@@ -484,6 +729,9 @@ def replay(ctx, coords):
         case_xoprob(ctx, int(coords[0]))
     elif coords[1] == "dense":
         case_dense(ctx, int(coords[0]))
+    elif coords[1] == "roles":
+        ids, level, ntot = plan(ctx)
+        case_roles(ctx, int(coords[0]), level)
     else:
         ids, level, ntot = plan(ctx)
         case_stat(ctx, int(coords[0]), level, 300000 if ctx.tier == "quick" else 1000000)
